@@ -8,6 +8,9 @@
   (3) JavaScript identifier allocation with minification OFF (`GV.Names`, utils.go:284-327) — `names_distinct_plain`,
       `encodeIdent_inj`.
   Not modelled (observed on generated programs only): `translateExpr`, "no internal error", "valid JavaScript".
+  `goto` is not part of `direct_correct` because the compiler never translates it in direct mode: the analysis marks every
+  function that contains a `goto` as flattened (`compiler/internal/analysis/info.go:401-405`, `fi.markFlattened`) and
+  `statements.go:319-320` only emits the flattened form `$s = N; continue;` — goto belongs to C02's `flatten_correct`.
 -/
 import GV.Model.Ctrl
 import GV.Model.Direct
@@ -16,6 +19,7 @@ import GV.Model.Desugar
 import GV.Proofs.DesugarOnce
 import GV.Model.Names
 import GV.Proofs.NamesPlain
+import GV.Proofs.EncodeInj
 
 namespace GV.Props.C01
 open GV.Ctrl GV.Direct GV.Proofs.Direct
@@ -325,14 +329,63 @@ theorem render_clash : encodeIdent [120, 16] = [120, 36, 49, 48] ∧ ¬ RenderIn
   rw [e0, e1] at this
   exact absurd this.1 (by decide)
 
-/-- Not proved here (stated for the record): for names that are valid UTF-8 — every Go identifier is — the side
-    condition always holds. -/
-def encodeIdent_inj_utf8 (validUtf8 : Name → Prop) : Prop :=
-  ∀ ops : List Op, (∀ op ∈ ops, match op with
-      | .req name _ => validUtf8 name
-      | .push fn => validUtf8 fn
+open GV.Proofs.EncodeInj in
+/-- **encodeIdent_inj_utf8** — `encodeIdent` followed by the `$n` counter suffix is injective on everything the compiler
+    asks names for: Go identifiers (ASCII letters, digits, `_`, and UTF-8 encoded non-ASCII letters / digits), dotted
+    function references (`main.f`, the dots become middle dots), and the compiler's own `$r`, `x$ptr` (`GV.Proofs.EncodeInj.Valid`:
+    unreserved ASCII bytes · `$`+letter · `C2 B7` · a UTF-8 lead byte with exactly the continuation bytes it announces).
+    No clash between an escaped byte (`$C3`, `$80` …) and a counter (`$3`, `$80` …): a lead byte escapes to `$C2`…`$F4`,
+    never decimal, and a continuation byte — which can escape to decimal digits, `À1` is `$C3$801` — never follows a
+    complete name. -/
+theorem encodeIdent_inj_utf8 (ops : List Op)
+    (hreq : ∀ op ∈ ops, match op with
+      | .req name _ => Valid name
+      | .push fn => Valid fn
       | .pop => True
-      | .ptr _ name => validUtf8 name) → RenderInj (bases ops)
+      | .ptr _ name => Valid name) : RenderInj (bases ops) := by
+  apply renderInj_valid
+  intro b hb
+  simp only [bases, List.mem_flatMap] at hb
+  obtain ⟨op, hop, hb⟩ := hb
+  have := hreq op hop
+  cases op with
+  | pop => simp [opBase] at hb
+  | req name pk =>
+    simp only [opBase, List.mem_singleton] at hb
+    exact ⟨name, this, hb⟩
+  | push fn =>
+    simp only [opBase, List.mem_singleton] at hb
+    exact ⟨dotsToMidDot fn, valid_dots this, hb⟩
+  | ptr v name =>
+    simp only [opBase, List.mem_singleton] at hb
+    exact ⟨name ++ ptrSuffix, valid_append this valid_ptrSuffix, hb⟩
+
+open GV.Proofs.EncodeInj in
+/-- **names_distinct_plain for all valid Go identifiers** — no side condition left: for every history whose requested
+    names are valid (see `encodeIdent_inj_utf8`), the JavaScript names in scope are pairwise distinct and never a reserved
+    keyword or reserved global. -/
+theorem names_distinct_plain_valid (ops : List Op) (st : NState)
+    (hreq : ∀ op ∈ ops, match op with
+      | .req name _ => Valid name
+      | .push fn => Valid fn
+      | .pop => True
+      | .ptr _ name => Valid name)
+    (h : runOps false initStateG ops = some st) :
+    (visible st).Nodup ∧ (∀ n ∈ visible st, n ∉ reservedAll) :=
+  names_distinct_plain ops st (encodeIdent_inj_utf8 ops hreq) h
+
+open GV.Proofs.EncodeInj in
+/-- non-ASCII identifiers are valid names: `é` (C3 A9), `À1` (C3 80 31, whose encoding `$C3$801` ends in `$` + digits),
+    `变` (E5 8F 98), and the function reference `main.é` -/
+example : Valid [0xC3, 0xA9] ∧ Valid [0xC3, 0x80, 0x31] ∧ Valid [0xE5, 0x8F, 0x98] ∧
+    Valid [109, 97, 105, 110, 46, 0xC3, 0xA9] := by
+  refine ⟨?_, ?_, ?_, ?_⟩
+  · exact .multi 0xC3 [0xA9] [] (by decide) (by decide) (by decide) (by simp [isCont]) (by simp) .nil
+  · exact .multi 0xC3 [0x80] [0x31] (by decide) (by decide) (by decide) (by simp [isCont]) (by simp)
+      (.ascii 0x31 [] (by decide) .nil)
+  · exact .multi 0xE5 [0x8F, 0x98] [] (by decide) (by decide) (by decide) (by simp [isCont]) (by simp) .nil
+  · exact .ascii 109 _ (by decide) (.ascii 97 _ (by decide) (.ascii 105 _ (by decide) (.ascii 110 _ (by decide)
+      (.ascii 46 _ (by decide) (.multi 0xC3 [0xA9] [] (by decide) (by decide) (by decide) (by simp [isCont]) (by simp) .nil)))))
 
 /-- the hypotheses are satisfiable by a non-trivial history: `x`, `x` again, a nested function `f`, `let` -/
 example : RenderInj (bases [.req [120] false, .req [120] false, .push [102], .req [108, 101, 116] false]) := by
